@@ -61,11 +61,12 @@ def rule_r1(ctx) -> RuleResult:
         raise AnalysisError("frame_args_index vanished")
     flag = val = None
     for n in L.walk(fai):
-        if n.kind == "local" and n.exprs and L.text(n.exprs[0]) == "v[1]":
+        if n.kind == "local" and n.exprs and L.text(n.exprs[0]).endswith("[1]") and len(n.names) == 1:
             flag = n
-        if n.kind == "assign" and "preprocess(v[0])" in L.text(n.exprs[0]):
+        if n.kind == "assign" and "preprocess(" in L.text(n.exprs[0]) and L.text(n.exprs[0]).rstrip(")").endswith("[0]"):
             val = n
-    if flag is not None and flag.names == ["is_named"] and val is not None:
+    uses_flag = flag is not None and any(n.kind == "if" and L.text(n.clauses[0][0]) == flag.names[0] for n in L.walk(fai))
+    if flag is not None and uses_flag and val is not None:
         rr.ok("_sandbox_phase2.lua:frame_args_index", "v[0] -> frame:preprocess, v[1] -> is_named", {"lua": [L.text(val.exprs[0]), "is_named = v[1]"]})
     else:
         rr.bad(Finding("C08.R1", P2, "frame_args_index", "v[0] / v[1]",
